@@ -28,10 +28,10 @@ SPECS = {
         "funcs": [
             {"py": "LevyCopulaModel._mass_1d", "coq": "mass_1d", "pyargs": ["a", "b", "index"],
              "args": [("a", "ext N"), ("b", "ext N"), ("index", "nat")], "ret": "N", "attrs": ATTRS},
-            {"py": "LevyCopulaModel._mass_2d", "coq": "mass_2d", "pyargs": ["a", "b", "indices"],
+            {"py": "LevyCopulaModel._mass_2d", "coq": "mass_2d", "pyargs": ["a", "b", "indices"], "defaults": {"indices": "None"},
              "args": [("a", "list (ext N)"), ("b", "list (ext N)"), ("indices", "idx")], "ret": "N", "attrs": ATTRS,
              "xlists": ["a", "b"], "ilists": ["indices"]},
-            {"py": "LevyCopulaModel._mass_3d", "coq": "mass_3d", "pyargs": ["a", "b", "indices"],
+            {"py": "LevyCopulaModel._mass_3d", "coq": "mass_3d", "pyargs": ["a", "b", "indices"], "defaults": {"indices": "None"},
              "args": [("a", "list (ext N)"), ("b", "list (ext N)"), ("indices", "idx")], "ret": "N", "attrs": ATTRS,
              "xlists": ["a", "b"], "ilists": ["indices"]},
         ],
